@@ -27,11 +27,12 @@ ENCODED = [
     "tdgl.solver.options:SolverOptions.validate",
 ]
 BOUNDS = {
-    "quick": dict(devices=["bar2"], steps="one inductive step from an arbitrary state", refreshes=2),
-    "thorough": dict(devices=["bar2", "bar3"], steps="one inductive step from an arbitrary state", refreshes=3),
+    "quick": dict(devices=["bar2"], row_devices=["bar2"], steps="one inductive step from an arbitrary state", refreshes=2),
+    "thorough": dict(devices=["bar2", "bar3"], row_devices=["bar2", "tee3"], steps="one inductive step from an arbitrary state", refreshes=3),
 }
 ASSUMPTIONS = [
     "mesh weights arbitrary positive reals on the real device meshes (terminal membership concrete)",
+    "identity-row claims: terminals pairwise disjoint in sites (a site listed by two terminals gets the row 2 x identity; the pinning claims themselves are also decided on such a device)",
     "psi arbitrary complex elsewhere, mu arbitrary real, epsilon in [-1,1], gamma >= 0, u > 0, dt > 0, link phases arbitrary",
     "Poisson solve opaque at step level (psi' does not depend on it)",
     "one inductive step: the claim for runs of any length follows because the post-state satisfies the pre-state assumption",
@@ -49,9 +50,14 @@ def patch_spec(case):
 
 def cases(tier, seed):
     out = []
-    for d in BOUNDS[tier]["devices"]:
+    # identity rows are stated for devices whose terminals share no site (a site inside two terminals is
+    # listed twice and its row becomes 2 x identity; pinning itself still holds there: the step cases
+    # include such a device, bar3)
+    for d in BOUNDS[tier]["row_devices"]:
         meshes.get_device(d, seed)
         out.append(Case(f"rows:{d}", kind="rows", dev=d, seed=seed, refreshes=BOUNDS[tier]["refreshes"]))
+    for d in BOUNDS[tier]["devices"]:
+        meshes.get_device(d, seed)
         for v in ("zero", "sym", "none"):
             out.append(Case(f"step:{d}:v={v}", kind="step", dev=d, v=v, seed=seed, arbitrary=False))
         # a run may start from a seed solution whose terminal values differ from terminal_psi:
@@ -76,7 +82,8 @@ def body_rows(H, case):
     ns, ne = len(mesh.sites), len(mesh.edge_mesh.edges)
     fixed = np.concatenate([t.site_indices for t in dev.terminal_info()]).astype(np.int64)
     fixed_set = set(int(i) for i in fixed)
-    H.prove("some but not all sites are terminal sites", 0 < len(fixed_set) < ns)
+    if not (0 < len(fixed_set) < ns and len(fixed_set) == len(fixed)):
+        raise engine.HarnessError(f"device {case.dev} is not suitable for the row claims: terminals must be disjoint and leave free sites")
     none = np.array([], dtype=np.int64)
     mo = ops.MeshOperators(mesh, SparseSolver.SUPERLU, fixed_sites=fixed, fix_psi=True)
     free = ops.MeshOperators(mesh, SparseSolver.SUPERLU, fixed_sites=none, fix_psi=True)
